@@ -19,6 +19,7 @@ package main
 import (
 	"bufio"
 	"context"
+	"database/sql"
 	"encoding/json"
 	"errors"
 	"fmt"
@@ -98,7 +99,18 @@ func openSqlite(dir string) (storage.OpenFGADatastore, error) {
 	if err := db.Close(); err != nil {
 		return nil, err
 	}
-	return sqlite.New(uri, sqlcommon.NewConfig())
+	// sqlite.New = PrepareDSN + sql.Open + NewWithDB; done by hand to keep idle connections
+	// (database/sql's default of 2 makes the 10-way concurrent readers reopen the file constantly)
+	dsn, err := sqlite.PrepareDSN(uri)
+	if err != nil {
+		return nil, err
+	}
+	sdb, err := sql.Open("sqlite", dsn)
+	if err != nil {
+		return nil, err
+	}
+	sdb.SetMaxIdleConns(64)
+	return sqlite.NewWithDB(sdb, sqlcommon.NewConfig())
 }
 
 func classifyErr(err error) int {
@@ -201,7 +213,7 @@ func (r *runner) list(rq Req, engine, mode int, limit uint32) (int, []string) {
 	}
 	ec := classifyErr(err)
 	if ec == errOther && os.Getenv("C05_DEBUG") != "" {
-		fmt.Fprintf(os.Stderr, "other error: engine=%d mode=%d limit=%d req=%+v err=%v\n%s\n", engine, mode, limit, rq, err, r.env.S.String())
+		fmt.Fprintf(os.Stderr, "other error: engine=%d mode=%d limit=%d req=%+v err=%v internal=%v\n%s\n", engine, mode, limit, rq, err, errors.Unwrap(err), r.env.S.String())
 	}
 	if ec == errNone && time.Since(start) > deadline*9/10 {
 		ec = errSlow // the deadline may have truncated the result silently
@@ -397,11 +409,17 @@ func runScenario(ctx context.Context, w *rec.Writer, r *rec.Rand, sq storage.Ope
 				ids = append(ids, rec.I(in.ID(id)))
 			}
 			runs = append(runs, rec.L(rec.I(b), rec.I(engine), rec.I(mode), rec.I(int(limit)), rec.I(ec), rec.L(ids...)))
+			if os.Getenv("C05_DEBUG") != "" {
+				fmt.Fprintf(os.Stderr, "run %v backend=%d engine=%s mode=%d limit=%d err=%s objs=%v\n", rq, b, engNames[engine], mode, limit, errNames[ec], objs)
+			}
 			w.Stat("calls", 1)
 			w.Stat("calls_"+engNames[engine]+"_"+errNames[ec], 1)
 		}
 		for b, rn := range runners {
+			tb := time.Now()
+			defer func(b int) { _ = b }(b)
 			for engine := engClassic; engine <= engPipeline; engine++ {
+				te := time.Now()
 				ec0, objs0 := rn.list(rq, engine, 0, 0)
 				emit(b, engine, 0, 0, ec0, objs0)
 				if b == 0 && engine == engClassic {
@@ -429,7 +447,10 @@ func runScenario(ctx context.Context, w *rec.Writer, r *rec.Rand, sq storage.Ope
 					emit(b, engine, 0, l, ec, objs)
 					w.Stat("calls_limited", 1)
 				}
+				w.Stat(fmt.Sprintf("us_backend%d_%s", b, engNames[engine]), int(time.Since(te).Microseconds()))
 			}
+			ts := time.Now()
+			defer func() { w.Stat(fmt.Sprintf("us_backend%d_streams", b), int(time.Since(ts).Microseconds())); _ = tb }()
 			for wi, weighted := range []bool{false, true} {
 				ec, cs := rn.stream(rq, weighted)
 				var cvs []rec.V
@@ -446,6 +467,9 @@ func runScenario(ctx context.Context, w *rec.Writer, r *rec.Rand, sq storage.Ope
 					} else {
 						rf++
 					}
+				}
+				if os.Getenv("C05_DEBUG") != "" {
+					fmt.Fprintf(os.Stderr, "stream %v backend=%d weighted=%v err=%s cands=%v\n", rq, b, weighted, errNames[ec], cs)
 				}
 				w.Stat("candidates_nofurther", nf)
 				w.Stat("candidates_requires_check", rf)
